@@ -171,13 +171,14 @@ type rCol struct {
 	raw       []byte // pre-encoded cells of any fixed-width type (useRaw)
 	n         int
 	useRaw    bool
+	lc        bool // LowCardinality(String), <=1 row (strs)
 }
 
 func (c rCol) rows() int {
 	if c.useRaw {
 		return c.n
 	}
-	if c.isStr {
+	if c.isStr || c.lc {
 		return len(c.strs)
 	}
 	return len(c.u64)
@@ -185,6 +186,19 @@ func (c rCol) rows() int {
 
 func (r *rb) cells(c rCol) {
 	switch {
+	case c.lc:
+		// LowCardinality(String) with at most one row: nothing at all for no rows (neither the
+		// serialization-state prefix nor the column); otherwise state, meta (UInt8 keys, additional
+		// keys, update dictionary), the one-entry dictionary, the one key
+		if len(c.strs) == 0 {
+			return
+		}
+		r.u64(1)
+		r.u64(0 | 1<<9 | 1<<10)
+		r.u64(1)
+		r.str(c.strs[0])
+		r.u64(1)
+		r.u8(0)
 	case c.useRaw:
 		r.b = append(r.b, c.raw...)
 	case c.isStr:
